@@ -68,3 +68,12 @@ CLAIMS["C14"] = (
     "declared width/sign select exactly that C type; all four use contexts share the one renderer. The arithmetic C performs on that tree is the "
     "stated oracle (C standard) and is not re-decided.",
     "Trusted: C11 6.5 precedence table encoded in rules/c14.py; shape recognisers for the parser arms (an unrecognised rewrite is reported, not skipped).")
+CLAIMS["C15"] = (
+    "table extraction and agreement rules over the literal decoders + finite-domain folding of the 256-entry case table",
+    "Static: escape tables compared with the fixed C oracle and with each other, totality of the escape decoder over what the STRING terminal admits, "
+    "\\xHH slicing/base/validation, prefix/base pairing and sign of the integer decoder, binary-string decoding and its error conversion, latin-1 at "
+    "every literal->bytes site, escaping of backslash/quote and self-delimiting escapes in emitted C literals, ord()-based byte tests, and the "
+    "case-folding function folded over all 256 inputs. Decides the tables and decoders for all literals; not end-to-end bytes through DFA construction. "
+    "Found and repaired F-09, F-14, F-22 (and F-02 under C03).",
+    "Trusted: the shape recognisers for the decoders (unrecognised rewrites are reported). The case table is decided by constant folding a loop-free "
+    "pure function over its finite domain, stated as such in DESIGN.md.")
